@@ -60,7 +60,8 @@ def _region_fn(findings: list[dict], kernel: str, shape: dict):
                       shape=shape, label=label, abs=abs, True_=True)
             if sp is not None and not eval(sp, {"__builtins__": {}}, ns):
                 continue
-            ns.update({k.replace("/", "_").replace(".", "_"): d["proxy"] for k, d in inp.decl.items()})
+            ns.update({k.replace("/", "_").replace(".", "_").replace("#", "_"): d["proxy"] for k, d in inp.decl.items()})
+            ns.update({k.split('@')[0]: v for k, v in inp.pub.items() if '@' not in k or k.endswith('@' + label)})
             try:
                 r = eval(f["region"], {"__builtins__": {}}, ns)
             except NameError:
